@@ -12,4 +12,18 @@ if ! go build -o bin/vcheck ./cmd/vcheck 2>bin/build.log; then
   echo "SELF-CHECK property=$id build of the checker against /repo failed:"; cat bin/build.log
   exit 2
 fi
+if [ "$id" = C13 ]; then
+  # stage 1: sequential determinism / input integrity (engine E1/E2); stage 2: the isolation
+  # harnesses of engine E4 (overlapping executions on the same function objects), merged into the
+  # same evidence file
+  out1=$(./bin/vcheck C13 "$tier"); rc1=$?
+  echo "$out1" | grep -v '^OK property=C13'
+  mkdir -p .work
+  python3 e4/gen_overlay.py 13 > .work/overlay13.log 2>&1 || { cat .work/overlay13.log; echo "SELF-CHECK property=C13 overlay generation failed"; exit 2; }
+  go build -overlay .work/overlay13.json -tags e4 -o bin/vcheck13 ./cmd/vcheck19 2> .work/build13.log || { cat .work/build13.log; echo "SELF-CHECK property=C13 E4 build (overlay) failed"; exit 2; }
+  [ $rc1 = 0 ] || [ $rc1 = 1 ] || exit $rc1
+  ./bin/vcheck13 "$tier" stage13; rc2=$?
+  [ $rc1 = 1 ] && exit 1
+  exit $rc2
+fi
 exec ./bin/vcheck "$id" "$tier"
